@@ -103,10 +103,11 @@ type oblEvidence struct {
 	Ms     int64  `json:"ms"`
 	Clause string `json:"clause,omitempty"`
 	Pos    string `json:"pos,omitempty"`
+	Retried bool  `json:"decided_on_second_attempt,omitempty"`
 }
 
 func (e *Engine) WriteEvidence(res *CheckResult, seed int, checkerCmd string, extra map[string]any) error {
-	var obls []oblEvidence
+	var obls, tried []oblEvidence
 	nObl, nDis := 0, 0
 	var solverMs int64
 	bySolver := map[string]int{}
@@ -148,10 +149,13 @@ func (e *Engine) WriteEvidence(res *CheckResult, seed int, checkerCmd string, ex
 				continue
 			}
 			ev := oblEvidence{Name: o.Name, Kind: o.Kind, Status: o.Status, Solver: o.Result.Solver, Ms: o.Result.Ms, Clause: o.Src, Pos: o.Pos}
-			obls = append(obls, ev)
+			ev.Retried = o.Retried
 			if o.Try {
+				// attempted but not claimed: kept apart so that len(obligation_list) == obligations
+				tried = append(tried, ev)
 				continue
 			}
+			obls = append(obls, ev)
 			nObl++
 			if o.Status == "discharged" {
 				nDis++
@@ -209,6 +213,7 @@ func (e *Engine) WriteEvidence(res *CheckResult, seed int, checkerCmd string, ex
 		"functions_under_contract": fns,
 		"functions_inlined_from_real_source": keysOf(inlinedSet),
 		"obligation_list":          obls,
+		"attempted_not_claimed":    tried,
 		"discharged_by_solver":     bySolver,
 		"solver_ms_total":          solverMs,
 		"undecided_not_claimed":    res.Undecided,
